@@ -206,6 +206,46 @@ def multi_order(inp):
         return {"got": t["band"], "expected": s["band"], "witness_class": "multi-order:band"}
 
 
+def gen_antider_order(tier, seed):
+    for backend in ("scipy", "iminuit"):
+        yield {"backend": backend}
+
+
+@R.oracle("antiderivative_parameters_follow_the_names", gen_antider_order, obligation="end-to-end:parameters")
+def antider_order(inp):
+    """a histogram fit whose bin contents come from an antiderivative: the density may list its parameters in any order - the results belong to the NAMES; an antiderivative that
+    lists them in ANOTHER order than its density is called with the wrong values and has to be refused"""
+    k2 = imp("kafe2")
+    from math import erf
+    cdf = np.vectorize(lambda x, mu, sigma: 0.5 * (1 + erf((x - mu) / (sigma * np.sqrt(2)))))
+    raw = np.random.RandomState(3).normal(2.2, 0.55, 400)
+
+    def dens_ms(x, mu=2.0, sigma=0.6):
+        return np.exp(-0.5 * ((x - mu) / sigma) ** 2) / np.sqrt(2 * np.pi) / sigma
+
+    def dens_sm(x, sigma=0.6, mu=2.0):
+        return np.exp(-0.5 * ((x - mu) / sigma) ** 2) / np.sqrt(2 * np.pi) / sigma
+    anti_ms = lambda x, mu, sigma: cdf(x, mu, sigma)
+    anti_sm = lambda x, sigma, mu: cdf(x, mu, sigma)
+    res = {}
+    for label, dens, anti in (("mu,sigma", dens_ms, anti_ms), ("sigma,mu", dens_sm, anti_sm)):
+        f = k2.HistFit(k2.HistContainer(10, (0.5, 4.0), fill_data=raw), dens, bin_evaluation=anti, minimizer=inp["backend"])
+        f.do_fit()
+        res[label] = (dict(zip(f.parameter_names, f.parameter_values)), dict(zip(f.parameter_names, f.parameter_errors)), float(f.cost_function_value))
+    a, b = res["mu,sigma"], res["sigma,mu"]
+    for n_ in ("mu", "sigma"):
+        if not np.isclose(a[0][n_], b[0][n_], rtol=2e-3, atol=1e-6) or not np.isclose(a[1][n_], b[1][n_], rtol=3e-2):
+            return {"got": b[:2], "expected": a[:2], "witness_class": "antiderivative-order:results-depend-on-the-declared-order"}
+    try:
+        f = k2.HistFit(k2.HistContainer(10, (0.5, 4.0), fill_data=raw), dens_sm, bin_evaluation=anti_ms, minimizer=inp["backend"])
+    except (ValueError, TypeError):
+        return None
+    f.do_fit()
+    got = dict(zip(f.parameter_names, f.parameter_values))
+    if not np.isclose(got["mu"], a[0]["mu"], rtol=2e-3) or not np.isclose(got["sigma"], a[0]["sigma"], rtol=2e-3):
+        return {"got": got, "expected": a[0], "witness_class": "antiderivative-order:mismatched-order-accepted-and-values-land-on-the-wrong-names"}
+
+
 # ------------------------------------------------------------------ 3. unit of y
 def power(x, A0=0.5, p=2.0, off=1.0):        # A0 and off carry the unit of y, the exponent is unit-free
     return A0 * x ** p + off
